@@ -31,13 +31,16 @@ def cseek (C : Cur σ) (t : QTime) : Nat → σ → Option σ
     else if endLt (C.en s) t then cseek C t f (C.nxt s)
     else some s
 
-/-- the chain tiles the time axis: consecutive, ordered, starting at or before 0, ending with an
-unbounded element at index `N` -/
-structure Tiling (C : Cur σ) (N : Nat) : Prop where
+/-- the part of the tiling that termination of a seek needs: the chain starts at or before 0,
+consecutive elements share their boundary, and element `N` is unbounded -/
+structure Tiling0 (C : Cur σ) (N : Nat) : Prop where
   start0 : C.st (C.chain 0) ≤ 0
   consec : ∀ k e, C.en (C.chain k) = some e → C.st (C.chain (k + 1)) = e
-  ordered : ∀ k e, C.en (C.chain k) = some e → C.st (C.chain k) ≤ e
   last : C.en (C.chain N) = none
+
+/-- the chain tiles the time axis: additionally every element is ordered and bounded before `N` -/
+structure Tiling (C : Cur σ) (N : Nat) : Prop extends Tiling0 C N where
+  ordered : ∀ k e, C.en (C.chain k) = some e → C.st (C.chain k) ≤ e
   bounded : ∀ k, k < N → ∃ e, C.en (C.chain k) = some e
 
 /-- a clamped query time: finite and non-negative, or +∞ (NaN excluded) -/
@@ -65,7 +68,7 @@ theorem firstFrom_unique (C : Cur σ) (t : QTime) (j k k' : Nat)
 
 /-- advancing from chain element `j` (whose start is not after `t`) lands on the first element
 from `j` on whose end is not before `t` -/
-theorem cseek_advance (C : Cur σ) (N : Nat) (T : Tiling C N) (t : QTime) (ht : t.valid) :
+theorem cseek_advance (C : Cur σ) (N : Nat) (T : Tiling0 C N) (t : QTime) (ht : t.valid) :
     ∀ (d j fuel : Nat), j + d = N → d < fuel → gtQ (C.st (C.chain j)) t = false →
       ∃ k, k ≤ N ∧ FirstFrom C t j k ∧ cseek C t fuel (C.chain j) = some (C.chain k) := by
   intro d
@@ -105,7 +108,7 @@ theorem cseek_advance (C : Cur σ) (N : Nat) (T : Tiling C N) (t : QTime) (ht : 
       simp [cseek, hst, he']
 
 /-- the start of the rewound state is never after a valid query time -/
-theorem gtQ_rew (C : Cur σ) (N : Nat) (T : Tiling C N) (t : QTime) (ht : t.valid) :
+theorem gtQ_rew (C : Cur σ) (N : Nat) (T : Tiling0 C N) (t : QTime) (ht : t.valid) :
     gtQ (C.st (C.chain 0)) t = false := by
   apply gtQ_false_of_le ht
   intro q hq; subst hq
@@ -113,7 +116,7 @@ theorem gtQ_rew (C : Cur σ) (N : Nat) (T : Tiling C N) (t : QTime) (ht : t.vali
 
 /-- **Landing.** From any chain element `j ≤ N`, with enough fuel, the seek loop returns the first
 chain element (from `j`, or from 0 when `j` starts after `t`) whose end is not before `t`. -/
-theorem cseek_lands (C : Cur σ) (N : Nat) (T : Tiling C N) (t : QTime) (ht : t.valid)
+theorem cseek_lands (C : Cur σ) (N : Nat) (T : Tiling0 C N) (t : QTime) (ht : t.valid)
     (j fuel : Nat) (hj : j ≤ N) (hf : N + 2 ≤ fuel) :
     ∃ k, k ≤ N ∧ cseek C t fuel (C.chain j) = some (C.chain k) ∧
       ((gtQ (C.st (C.chain j)) t = false ∧ FirstFrom C t j k) ∨
@@ -154,8 +157,8 @@ theorem landing_history_free (C : Cur σ) (N : Nat) (T : Tiling C N) (t : QTime)
     (j fuel fuel' : Nat) (hj : j ≤ N) (hf : N + 2 ≤ fuel) (hf' : N + 2 ≤ fuel')
     (hnb : ¬ IsBoundary C t) :
     cseek C t fuel (C.chain j) = cseek C t fuel' (C.chain 0) := by
-  obtain ⟨k, hkN, hs, hk⟩ := cseek_lands C N T t ht j fuel hj hf
-  obtain ⟨k0, hk0N, hs0, hk0⟩ := cseek_lands C N T t ht 0 fuel' (by omega) hf'
+  obtain ⟨k, hkN, hs, hk⟩ := cseek_lands C N T.toTiling0 t ht j fuel hj hf
+  obtain ⟨k0, hk0N, hs0, hk0⟩ := cseek_lands C N T.toTiling0 t ht 0 fuel' (by omega) hf'
   have hk0' : FirstFrom C t 0 k0 := by
     rcases hk0 with ⟨_, h⟩ | ⟨_, h⟩ <;> exact h
   rw [hs, hs0]
@@ -194,8 +197,8 @@ theorem landing_adjoining (C : Cur σ) (N : Nat) (T : Tiling C N) (S : StrictTil
     (j fuel fuel' : Nat) (hj : j ≤ N) (hf : N + 2 ≤ fuel) (hf' : N + 2 ≤ fuel') :
     ∃ k0, cseek C t fuel' (C.chain 0) = some (C.chain k0) ∧
       (cseek C t fuel (C.chain j) = some (C.chain k0) ∨ cseek C t fuel (C.chain j) = some (C.chain (k0 + 1))) := by
-  obtain ⟨k, hkN, hs, hk⟩ := cseek_lands C N T t ht j fuel hj hf
-  obtain ⟨k0, hk0N, hs0, hk0⟩ := cseek_lands C N T t ht 0 fuel' (by omega) hf'
+  obtain ⟨k, hkN, hs, hk⟩ := cseek_lands C N T.toTiling0 t ht j fuel hj hf
+  obtain ⟨k0, hk0N, hs0, hk0⟩ := cseek_lands C N T.toTiling0 t ht 0 fuel' (by omega) hf'
   have hk0' : FirstFrom C t 0 k0 := by
     rcases hk0 with ⟨_, h⟩ | ⟨_, h⟩ <;> exact h
   refine ⟨k0, hs0, ?_⟩
